@@ -123,6 +123,10 @@ func value(t string) string {
 		return `"s"`
 	case t == "bool":
 		return "true"
+	case t == "Mt" || t == "Ft":
+		return "1"
+	case t == "Kg":
+		return "1.5"
 	case t == "Pt":
 		return "{ .X = 1 } as Pt"
 	case t == "En":
@@ -157,6 +161,12 @@ func value(t string) string {
 // declFor returns the declaration a helper identifier stands for.
 func declFor(id string) (string, bool) {
 	switch id {
+	case "Mt":
+		return "type Mt i32;", true
+	case "Ft":
+		return "type Ft i32;", true
+	case "Kg":
+		return "type Kg f64;", true
 	case "Pt":
 		return "type Pt struct { .X: i32 };", true
 	case "En":
@@ -611,6 +621,18 @@ func variants() []variant {
 			}
 		}
 	}
+	// ... and between named numeric types (`type Mt i32; type Ft i32; type Kg f64;`): two names
+	// over one base type, a name and its base type, either way round
+	for _, o := range ops[:5] {
+		for i, p := range []pair{{"Mt", "Ft"}, {"Mt", "i32"}, {"i32", "Mt"}, {"Kg", "f64"}, {"f64", "Kg"}, {"Mt", "Kg"}} {
+			core := i < 3 && in(o.name, "add", "mul")
+			add(variant{rule: "arith", form: o.name, ty: p.a + "." + p.b, cty: p.a, core: core,
+				mut: ex(g(p.a)+" "+o.op+" "+g(p.b), p.a), ctl: ex(g(p.a)+" "+o.op+" "+g(p.a), p.a)})
+			s := "let w: %s = %s; w %s= %s;"
+			add(variant{rule: "arith", form: o.name + "assign", ty: p.a + "." + p.b, cty: p.a, core: i == 0 && o.name == "add",
+				mut: st(fmt.Sprintf(s, p.a, g(p.a), o.op, g(p.b))), ctl: st(fmt.Sprintf(s, p.a, g(p.a), o.op, g(p.a)))})
+		}
+	}
 	for _, o := range ops[:5] {
 		for _, a := range numTypes {
 			for _, b := range numTypes {
@@ -874,7 +896,7 @@ func (n nat) String() string {
 func Run(c *vl.Ctx) {
 	quick := c.Quick()
 	if quick {
-		c.SetBudget(80 * time.Second)
+		c.SetBudget(300 * time.Second)
 	} else {
 		c.SetBudget(13 * time.Minute)
 	}
